@@ -363,9 +363,101 @@ async fn backoff_body(c: &BackoffCase) -> L2 {
   verdict
 }
 
+
+/// Back-off against a port nobody listens on, while other sockets of the same context come and
+/// go: every refused attempt is announced on the monitor (ConnectRetried carries the delay the
+/// connecter is about to wait). The number of attempts within the window is bounded by the
+/// geometric schedule; unrelated activity in the context must not add attempts.
+#[derive(Clone, Debug, Serialize, Deserialize)]
+pub struct RefusedCase {
+  pub ivl_ms: u16,
+  pub window_ms: u16,
+  pub churn_gap_ms: u8,
+}
+
+async fn refused_body(c: &RefusedCase) -> L2 {
+  let ctx = match rzmq::Context::new() {
+    Ok(x) => x,
+    Err(e) => return L2::Inconclusive(e.to_string()),
+  };
+  // a port that refuses: bind, note the address, close
+  let ep = {
+    let l = match std::net::TcpListener::bind("127.0.0.1:0") {
+      Ok(l) => l,
+      Err(e) => return L2::Inconclusive(e.to_string()),
+    };
+    format!("tcp://{}", l.local_addr().unwrap())
+  };
+  let push = match ctx.socket(stack::stype("PUSH")) {
+    Ok(s) => s,
+    Err(e) => return L2::Inconclusive(e.to_string()),
+  };
+  if let Err(e) = stack::set_opts(&push, &[stack::i32opt(opt::RECONNECT_IVL, c.ivl_ms as i32), stack::i32opt(opt::RECONNECT_IVL_MAX, 0)]).await {
+    return L2::Inconclusive(e);
+  }
+  let mon = match push.monitor_default().await {
+    Ok(m) => m,
+    Err(e) => return L2::Inconclusive(e.to_string()),
+  };
+  // unrelated actors starting and stopping in the same context
+  let ctx2 = ctx.clone();
+  let gap = c.churn_gap_ms as u64;
+  let stop = std::sync::Arc::new(std::sync::atomic::AtomicBool::new(false));
+  let stop2 = stop.clone();
+  let churn = tokio::spawn(async move {
+    let mut n = 0u32;
+    while !stop2.load(std::sync::atomic::Ordering::Relaxed) {
+      if let Ok((s, _)) = stack::bound(&ctx2, "PULL", Transport::Ipc, &[]).await {
+        let _ = s.close().await;
+        n += 1;
+      }
+      tokio::time::sleep(Duration::from_millis(gap)).await;
+    }
+    n
+  });
+  let t0 = Instant::now();
+  if let Err(e) = push.connect(&ep).await {
+    return L2::Inconclusive(e.to_string());
+  }
+  let mut retries: Vec<(u128, u128)> = Vec::new(); // (when, announced delay)
+  while t0.elapsed() < Duration::from_millis(c.window_ms as u64) {
+    let left = Duration::from_millis(c.window_ms as u64).saturating_sub(t0.elapsed());
+    match tokio::time::timeout(left, mon.recv()).await {
+      Ok(Ok(rzmq::socket::SocketEvent::ConnectRetried { interval, .. })) => retries.push((t0.elapsed().as_millis(), interval.as_millis())),
+      Ok(Ok(_)) => {}
+      _ => break,
+    }
+  }
+  stop.store(true, std::sync::atomic::Ordering::Relaxed);
+  let churned = churn.await.unwrap_or(0);
+  // schedule: attempt k waits ivl * 2^(k-1): within the window at most log2(window/ivl + 1) + 1 waits begin
+  // delays start at RECONNECT_IVL and may stay there (growth is 'at most' geometric): no more waits
+  // can begin inside the window than window / ivl, plus the first and one for rounding
+  let max_waits = (c.window_ms as usize / c.ivl_ms as usize) + 2;
+  let v = |check: &str, d: String| L2::Violation(Violation::new(check, d).with("layer", "stack").with("transport", "tcp"));
+  let mut verdict = L2::Ok;
+  if retries.len() > max_waits {
+    verdict = v("reconnect_too_soon", format!("{} retry waits were announced within {} ms against a refusing port with RECONNECT_IVL {} (at most {} waits of at least RECONNECT_IVL fit; {} unrelated sockets were opened and closed meanwhile); (time, delay) = {:?}", retries.len(), c.window_ms, c.ivl_ms, max_waits, churned, &retries[..retries.len().min(10)]));
+  } else {
+    for w in retries.windows(2) {
+      // the next wait cannot begin before the previous one (of the announced length) is over
+      if (w[1].0 as f64) < w[0].0 as f64 + 0.8 * w[0].1 as f64 {
+        verdict = v("reconnect_too_soon", format!("a retry wait of {} ms was announced at {} ms and the next one already at {} ms ({} unrelated sockets were opened and closed meanwhile)", w[0].1, w[0].0, w[1].0, churned));
+        break;
+      }
+    }
+  }
+  let _ = push.close().await;
+  stack::term(&ctx).await;
+  if retries.is_empty() && matches!(verdict, L2::Ok) {
+    return L2::Inconclusive("no ConnectRetried event was observed".into());
+  }
+  verdict
+}
+
 pub fn run(run: &Run) {
   let (n_l, n_i, n_b) = match run.tier {
-    Tier::Quick => (24, 12, 6),
+    Tier::Quick => (24, 12, 18),
     Tier::Thorough => (600, 200, 60),
   };
   let lc = (prop::sample::select(vec![Transport::Tcp, Transport::Ipc]), prop::collection::vec(fault_strategy(), 1..4), prop::sample::select(vec![Rt::Current, Rt::Multi(2)]))
@@ -405,6 +497,13 @@ pub fn run(run: &Run) {
     rec.label_if(c.max_ms > 0, "max_set");
     let r = run_l2(Rt::Multi(2), Duration::from_secs(90), backoff_body(c));
     l2_result(run, "reconnect_observed", r)
+  });
+  let rc = (prop::sample::select(vec![50u16, 100, 200]), prop::sample::select(vec![600u16, 1000]), prop::sample::select(vec![3u8, 10, 25])).prop_map(|(ivl_ms, window_ms, churn_gap_ms)| RefusedCase { ivl_ms, window_ms, churn_gap_ms });
+  run.prop("refused_backoff_under_actor_churn", (n_b / 3).max(4), 4, 2, rc, |c, rec: &mut CaseRec| {
+    rec.nontrivial = true;
+    rec.label("refusing_port");
+    let r = run_l2(Rt::Multi(2), Duration::from_secs(60), refused_body(c));
+    l2_result(run, "refused_backoff_under_actor_churn", r)
   });
   stack::cleanup_scratch();
 }
